@@ -164,9 +164,10 @@ SELFTEST_PARTS = {
     'reader': ['lazybytes', 'lazyarr', 'struct', 'lru', 'zfpy', 'reader'],
     'writer': ['lazybytes', 'lazyarr', 'struct', 'zfpy', 'segy', 'reader'],
     'C16': ['zfpy'], 'C19': ['struct'], 'C13': ['lazyarr', 'lru', 'reader'],
+    'writer-fp': ['lazybytes', 'lazyarr', 'struct', 'zfpy', 'segy', 'reader', 'fp'],
 }
 SELFTEST_OF = dict(C02='reader', C14='reader', C07='reader', C15='reader', C17='reader', C18='reader', C10='reader', C12='reader',
-                   C01='writer', C03='writer', C04='writer', C05='writer', C08='writer', C09='writer', C11='writer', C20='writer',
+                   C01='writer', C03='writer', C04='writer', C05='writer-fp', C08='writer', C09='writer', C11='writer', C20='writer',
                    C16='C16', C19='C19', C13='C13')
 
 
